@@ -14,15 +14,31 @@ TASK_ASSUME = COMMON_ASSUME + [
     "other tasks put controls into the queues only through Job methods (urgent: Stop/Delete, high: NextEnding), as proved for every Job method (C10.job_*) and enumerated call sites (C10.structure.*)",
 ]
 
+ORIGINS_ASSUME = [
+    "Windows and cfg(test) variants of the code are not verified",
+    "DirList::obtain (tokio read_dir stream) returns one consistent snapshot of the directory (empty if unreadable); paths are abstract (parent/equality only)",
+    "the set of origin markers is documented nowhere: `marked` is generated from check_list's own table; the per-type marker table and the VCS/Soft classes are transcribed from the doc comments of ProjectType (Zig has none: its row is the one in types())",
+]
+NOT_APPLICABLE = {
+    "C17": "iterator-adapter/HashMap/OsString code that neither Verus nor Kani can digest; no contract within reach expresses the reconstruct-by-join law (DESIGN §8)",
+}
 PROPS = {
-    "C04": dict(units=["task"], level="proof", assumptions=TASK_ASSUME,
+    "C04": dict(claim='Inductive invariant (live children == the child owned by the state) proved by Verus over the real job-task loop and both handlers, for every control, child behaviour and fault; unbounded', trusted="environment stand-ins in prelude/task_env.rs (process-wrap child, tokio select/mpsc, user callbacks, clock), flag_env.rs; rewrite rules of the extractor; listed per run in evidence coverage.trusted_base and assumptions",
+                units=["task"], level="proof", assumptions=TASK_ASSUME,
                 explanation="inductive invariant I1 (live children == the one child owned by the state) assumed at entry and proved at every exit of both select arms of the job task, for every control, every child behaviour and every failure of kill/wait/spawn; CommandState::{spawn,wait,reset} bodies proved against the contracts the arms rely on"),
-    "C06": dict(units=["task"], level="proof", assumptions=TASK_ASSUME),
-    "C07": dict(units=["task", "flag"], level="proof", assumptions=TASK_ASSUME + [
+    "C06": dict(claim='Contracts on the graceful arms, Timer and PriorityReceiver::recv proved by Verus for all grace values, timings and queue contents; restart-exactly-once clauses on the continuation arms', trusted="environment stand-ins in prelude/task_env.rs (process-wrap child, tokio select/mpsc, user callbacks, clock), flag_env.rs; rewrite rules of the extractor; listed per run in evidence coverage.trusted_base and assumptions",
+                units=["task"], level="proof", assumptions=TASK_ASSUME),
+    "C07": dict(claim='Ticket ledger (every received flag raised or parked, gone raised at task end) proved at every exit of both handlers and the loop shell incl. all failure exits; Flag wakes every registered waiter', trusted="environment stand-ins in prelude/task_env.rs (process-wrap child, tokio select/mpsc, user callbacks, clock), flag_env.rs; rewrite rules of the extractor; listed per run in evidence coverage.trusted_base and assumptions",
+                units=["task", "flag"], level="proof", assumptions=TASK_ASSUME + [
         "Flag::poll and Flag::raise are each treated as atomic (no interleaving inside one call; Relaxed orderings and the register-then-recheck argument are not verified)",
         "Ticket::poll (futures::future::select over job_gone and control_done) is not under contract: a ticket is ready iff one of its two flags is raised",
         "std Mutex poisoning (panic while the waker list is locked) is not modelled"]),
-    "C09": dict(units=["task"], level="proof", assumptions=TASK_ASSUME),
-    "C10": dict(units=["task"], level="proof", assumptions=TASK_ASSUME + [
+    "C09": dict(claim='Every control arm and the child-ended arm proved to refine a state machine transcribed from the Job API docs (log of spawns/signals/kills/hooks, state, ticket resolution)', trusted="environment stand-ins in prelude/task_env.rs (process-wrap child, tokio select/mpsc, user callbacks, clock), flag_env.rs; rewrite rules of the extractor; listed per run in evidence coverage.trusted_base and assumptions",
+                units=["task"], level="proof", assumptions=TASK_ASSUME),
+    "C10": dict(claim='recv/send contracts over the three queues proved for all queue contents and timer states; every Job method proved to send its controls in order with one priority', trusted="environment stand-ins in prelude/task_env.rs (process-wrap child, tokio select/mpsc, user callbacks, clock), flag_env.rs; rewrite rules of the extractor; listed per run in evidence coverage.trusted_base and assumptions",
+                units=["task"], level="proof", assumptions=TASK_ASSUME + [
         "'looking at the queues' is the entry of recv: messages arriving during the blocking select may be picked in any order"]),
+    "C20": dict(units=["origins"], level="proof", assumptions=ORIGINS_ASSUME,
+                claim="ProjectType::{is_vcs,is_soft}, DirList::*, check_list, origins (ancestor walk, loop invariant, termination) and types proved by Verus against specs transcribed from the docs, for all paths and directory contents",
+                trusted="stand-ins in prelude/origins_env.rs (abstract paths, directory listing map, HashSet/array iterator idioms); string literals interned (R9)"),
 }
